@@ -240,6 +240,13 @@ Fixpoint extract_loop (ms : list member) (done : list entry) : list entry :=
   end.
 Definition extract (ms : list member) : list entry := extract_loop ms [].
 
+(* what an extracted entry is expected to look like: the mtime to the second; Size kept for
+   regular files (a hard-link member gets it back from the file it links to), dropped
+   otherwise; the bytes unchanged *)
+Definition extracted_stat (s : stat) : stat :=
+  round_mtime_to_second (if mode_is_regular (st_mode s) then s else set_size s 0).
+Definition extracted (e : entry) : entry := (extracted_stat (fst e), snd e).
+
 (* ---------- well-formedness ---------- *)
 (* Mode bits within the FileMode layout: permission bits, setuid/setgid/sticky, and exactly
    one of the six types tar can express.  Stated on the part above the nine permission
@@ -291,6 +298,11 @@ Fixpoint links_closed_from (done l : list entry) : bool :=
   | e :: r => link_target_ok done e && links_closed_from (done ++ [e]) r
   end.
 Definition links_closed (l : list entry) : bool := links_closed_from [] l.
+
+(* mtimes whose rounded value is representable in int64 nanoseconds (1677-09-21 .. 2262-04-11
+   minus half a second at either end) *)
+Definition mtime_in_range (e : entry) : bool :=
+  (Z.leb (-9223372036500000000) (sint (st_mtime (fst e))) && Z.ltb (sint (st_mtime (fst e))) 9223372036500000000)%Z.
 
 (* ---------- the specification, member by member (oracle of the correspondence run) ----------
    Written against the view entry, independently of hdr_of_stat: classification of the
@@ -362,3 +374,22 @@ Fixpoint links_resolve_from (seen : list bytes) (ms : list member) : bool :=
     && links_resolve_from (if N.eqb (h_typeflag h) TypeReg then h_name h :: seen else seen) r
   end.
 Definition links_resolve (ms : list member) : bool := links_resolve_from [] ms.
+
+(* ---------- link groups of a (filtered) listing ----------
+   Two plain entries belong to the same hard-link group when they name the same source
+   (Hardlinks.orig_rep: the link name, or the own path for the entry the others name).  In a
+   view taken from a file system these are one inode: same type, same size, same bytes.  The
+   filters may drop any members of a group, also the one the others name. *)
+Definition same_group (a b : stat) : bool :=
+  hl_plain a && hl_plain b && bytes_eqb (orig_rep a) (orig_rep b).
+Definition group_types_agree (l : list entry) : bool :=
+  forallb (fun a => forallb (fun b =>
+    negb (same_group (fst a) (fst b))
+    || Bool.eqb (mode_is_regular (st_mode (fst a))) (mode_is_regular (st_mode (fst b)))) l) l.
+Definition group_contents_agree (l : list entry) : bool :=
+  forallb (fun a => forallb (fun b =>
+    negb (same_group (fst a) (fst b))
+    || (N.eqb (st_size (fst a)) (st_size (fst b)) && bytes_eqb (snd a) (snd b))) l) l.
+(* only regular files have bytes *)
+Definition no_content_unless_regular (l : list entry) : bool :=
+  forallb (fun e => mode_is_regular (st_mode (fst e)) || is_nil (snd e)) l.
